@@ -689,9 +689,11 @@ class Canon:
         import copy
         new = copy.deepcopy(self._strip(self.expr(e, at)))
         new._parent = None
+        from .model import _SHARED_NODES
         for node in ast.walk(new):
             for ch in ast.iter_child_nodes(node):
-                ch._parent = node
+                if not isinstance(ch, _SHARED_NODES):
+                    ch._parent = node
         return new
 
     @staticmethod
